@@ -31,7 +31,7 @@ ASSUMPTIONS = [
     "seeded search: a clean batch is evidence, not proof",
 ]
 RULE = (
-    "plans = build (1-6 groups x 1-5 params, dict groups / bare list / generator, float / int / 0-dim tensor / absent lr, "
+    "plans = build (1-6 groups x 1-5 params, dict groups / bare list / generator, float / int / 0-dim tensor / absent lr with values from 3e-10 to 4096, "
     "weight_decay in [0,0.5], extra keys, independent_weight_decay and allow_non_unit_scaling_params flags, via "
     "scaled_parameters+torch optimizer or uu.optim class) followed by 0-6 ops from {step, LambdaLR step, in-place lr "
     "mutation of one result group, caller mutation, rejected build + retry}; non-trivial = >= 2 ops; distinct = "
